@@ -262,17 +262,42 @@ def _lookup_name(cp: Poly):
     return mono[0][0].split("@")[0]
 
 
+def _split_lookup(cp: Poly):
+    """coefficient monomial -> (lookup name, extra scale polynomial): exactly one lookup atom name@k with exponent 1,
+    any other factors (numbers, prefactor components applied inside the kernel) form the extra scale."""
+    if len(cp.terms) != 1:
+        return None
+    (mono, cc), = cp.terms.items()
+    looks = [(a, e) for a, e in mono if "@" in a]
+    if len(looks) != 1 or looks[0][1] != 1:
+        return None
+    rest = tuple((a, e) for a, e in mono if "@" not in a)
+    return looks[0][0].split("@")[0], Poly({rest: cc})
+
+
+def _vector_of(df: DataFlow, anchor: int, cp: Poly):
+    """The coefficient vector (table x scale) an axis is weighted with, in terms of T and prefactor components."""
+    sp = _split_lookup(cp)
+    if sp is None:
+        return None
+    name, extra = sp
+    nzo = FlowNormalizer(df, anchor, call_hook=_scale_hook)
+    return nzo.norm(ast.Name(id=name, ctx=ast.Load())) * extra
+
+
 def _same_table(f: FuncInfo, df: DataFlow, k: ast.FunctionDef, cx: Poly, cy: Poly) -> bool:
-    """Different lookups are acceptable when both vectors are the same table times a per-axis scale."""
-    nx, ny = _lookup_name(cx), _lookup_name(cy)
+    """Different lookups are acceptable when both vectors are the same table times a per-axis scale (the scale may be
+    applied when the vector is built or inside the kernel)."""
     anchor = _anchor_of(df, k)
-    if nx is None or ny is None or anchor is None:
+    if anchor is None:
         return False
     vecs = []
-    for nm in (nx, ny):
-        nzo = FlowNormalizer(df, anchor, call_hook=_scale_hook)
-        v = nzo.norm(ast.Name(id=nm, ctx=ast.Load()))
-        vecs.append(v.subst({"1*prefactor[0]": Poly.atom("P"), "1*prefactor[1]": Poly.atom("P")}))
+    for cp in (cx, cy):
+        v = _vector_of(df, anchor, cp)
+        if v is None:
+            return False
+        vecs.append(v.subst({"1*prefactor[0]": Poly.atom("P"), "1*prefactor[1]": Poly.atom("P"),
+                             "prefactor[0]": Poly.atom("P"), "prefactor[1]": Poly.atom("P")}))
     return vecs[0] == vecs[1] and "T" in vecs[0].atoms()
 
 
@@ -345,22 +370,26 @@ def _axis_scale(ctx, f: FuncInfo, df: DataFlow, anchor: int, kernels, coef_names
         if n.kind == "stmt" and n.ast is not None and any(m is call for m in ast.walk(n.ast)):
             at = n.idx
     ctx.require(at is not None, f"{gs.qualname}: call statement has no CFG node")
-    # sampling variable: the 2-vector whose components [0] and [1] the prefactor is built from (a parameter of
-    # _get_new_stencil or an element unpacked from its cache-key parameter)
+    # sampling variable: the 2-vector whose components [0] and [1] the (normalised) prefactor is built from — a
+    # parameter of _get_new_stencil or an element unpacked from its cache-key parameter; temporaries are inlined
+    import re as _re
+
     parg0 = b["prefactor"]
     if isinstance(parg0, ast.Name):
         d0 = dfg.single_def(at, parg0.id)
         if d0 is not None and d0.value is not None:
             parg0 = d0.value
+    nz0 = FlowNormalizer(dfg, at, call_hook=_scale_hook)
+    elts0 = parg0.elts if isinstance(parg0, (ast.Tuple, ast.List)) else [parg0]
     comps: dict[str, set] = {}
-    for sub in ast.walk(parg0):
-        if isinstance(sub, ast.Subscript) and isinstance(sub.value, ast.Name) and isinstance(sub.slice, ast.Constant) \
-                and sub.slice.value in (0, 1):
-            comps.setdefault(sub.value.id, set()).add(sub.slice.value)
+    for e0 in elts0:
+        for a0 in nz0.norm(e0).atoms():
+            m0 = _re.fullmatch(r"(?:1\*)?(\w+)\[(?:1\*)?([01])\]", a0)
+            if m0:
+                comps.setdefault(m0.group(1), set()).add(int(m0.group(2)))
     cands = [n_ for n_, cs in comps.items() if cs == {0, 1}]
     if not cands:  # scalar prefactor built from one name
-        cands = [n_.id for n_ in ast.walk(parg0) if isinstance(n_, ast.Name) and (
-            n_.id in gs.params or any(d_.kind == "assign" for d_ in dfg.reaching(at, n_.id)))][:1]
+        cands = sorted({a0 for e0 in elts0 for a0 in nz0.norm(e0).atoms() if _re.fullmatch(r"\w+", a0)})[:1]
     ctx.require(len(cands) == 1, f"{gs.qualname}: cannot identify the sampling vector the prefactor is built from "
                                  f"(`{norm_text(parg0)[:60]}`)")
     samp = cands[0]
@@ -391,25 +420,19 @@ def _axis_scale(ctx, f: FuncInfo, df: DataFlow, anchor: int, kernels, coef_names
         cp = by_axis.get(ax)
         if cp is None:  # axis missing (already reported by R-SAMEVECTOR): the scale of the vector is still decidable
             cp = next(iter(by_axis.values()))
-        mult = Fraction(1)
-        if len(cp.terms) == 1:  # numeric multiplicity of the lookup counts towards the scale
-            (mono_, mult), = cp.terms.items()
-            cp = Poly({mono_: Fraction(1)})
-        name = _lookup_name(cp)
-        if name is None:
+        vec = _vector_of(df, anchor, cp)  # numeric multiplicity and in-kernel factors count towards the scale
+        if vec is None:
             if already:
                 return  # the kernel shape is already reported as a violation; its scale is not meaningful
             raise AnalysisError(f"{f.qualname}: coefficient of axis {ax} is {cp.key()}, not a single lookup")
-        nzo = FlowNormalizer(df, anchor, call_hook=_scale_hook)
-        vec = nzo.norm(ast.Name(id=name, ctx=ast.Load()))
-        scale = vec * Poly.atom("T").inverse() * Poly.const(mult)
+        scale = vec * Poly.atom("T").inverse()
         sub = {}
         for a in scale.atoms():
             if a == "prefactor":
                 if vector:
                     raise AnalysisError(f"{f.qualname}: a per-axis prefactor pair is used as a scalar")
                 sub[a] = pre[comp]
-            elif a in ("1*prefactor[0]", "1*prefactor[1]"):
+            elif a in ("1*prefactor[0]", "1*prefactor[1]", "prefactor[0]", "prefactor[1]"):
                 if not vector:
                     raise AnalysisError(f"{f.qualname}: scalar prefactor is indexed per axis")
                 sub[a] = pre[int(a[-2])]
